@@ -149,6 +149,19 @@ def main():
             seqs.append(steps)
         logs_out.append({"cases": cases, "seqs": seqs})
     out["logs"] = logs_out
+    # control batches emptied by the log cleaner (header kept, marker record gone): consumption must go on past them
+    stalls = []
+    for st in req.get("emptied", []):
+        log = c08_ref.Log(st["ops"])
+        ctl = [i for i, b in enumerate(log.batches) if b.ctl]
+        for j in st["empty"]:
+            b = log.batches[ctl[j % len(ctl)]]
+            b.raw = c08_ref.enc_batch(b.base, b.last, b.pid, True, True, [])
+        raw = b"".join(b.raw for b in log.batches if b.last >= st["f"])
+        idx = log.kafka_index(st["f"], log.hw) if st["iso"] == c08_ref.RC else None
+        stalls.append({"end": log.leo, "ctl": [b.base for b in log.batches if b.ctl],
+                       "via": {str(m): run_fetch_result(raw, idx, st["f"], st["iso"], m) for m in (0, 2)}})
+    out["emptied"] = stalls
     wild = []
     for w in req.get("wild", []):
         raw = b"".join(c08_ref.Batch(b["base"], b["last"], b["pid"], b["txn"], b["ctl"],
